@@ -232,9 +232,10 @@ theorem merged_guard_enabled {σ : State} {c₁ c₂ : Expr} (h : OrEvaluable σ
     Full statement aimed at (NOT proved): `asm_refines` with `reqFun` removed from `Coherent`, for the runs whose
     states type the guards.
 
-    Proved: let `tb'` request the same transfers with such duplicates replaced by their disjunction (`MergedOf tb tb'
-    manual`, decidable: `mergedOfB_sound`; the driver takes `tb' = normalize tb`, which merges duplicate successor
-    targets exactly as the successor loop merges their edges, `graphAt_normalize`).  If `tb'` is coherent and
+    Proved: let `tb'` request the same transfers with such duplicates replaced by a disjunction of them, of any
+    nesting (`MergedOf tb tb' manual`, decidable: `mergedOfB_sound`; the driver takes `tb' = canonTable tb manual`, in
+    which every successor carries the guard falcon's edge ends up with, `finalGuard`; the instruction lists are the
+    same, `graphAt_of_instrs`).  If `tb'` is coherent and
     assembles to `f`, then for every reference configuration `x` of `tb` such that every state the reference reaches
     from `x` types the guards of `tb` (`GuardsTyped`: each guard evaluates to a 0/1 constant of width one — what
     C05's accepted guards give wherever their flags are defined), the runs of the reference of `tb` from `x` and the
@@ -243,8 +244,8 @@ theorem merged_guard_enabled {σ : State} {c₁ c₂ : Expr} (h : OrEvaluable σ
     What is partial: that the function assembled from `tb` IS the one assembled from `tb'`
     (`assemble tb manual fnAddr = assemble tb' manual fnAddr`) is not proved for all tables — it is a decidable
     equation that the driver evaluates on every generated case with a merged guard (detail `merged-guards:covered`),
-    a translation-validation step; and only ONE level of disjunction is covered by `MergedOf` (two distinct guards per
-    pair).  The typing hypothesis is necessary: `merged_guard_enabled` fails without it in both directions. -/
+    a translation-validation step.  The typing hypothesis is necessary: `merged_guard_enabled` fails without it in
+    both directions. -/
 theorem asm_refines_merged_partial {tb tb' : List (Nat × BTR)} {manual : List ManualEdge} {fnAddr : Nat} {f : Function}
     (hc : Coherent tb' manual) (hg : GraphsWF tb') (h' : assemble tb' manual fnAddr = .ok f)
     (hG : ∀ a, graphAt tb' a = graphAt tb a) (hM : MergedOf tb tb' manual) :
@@ -258,17 +259,18 @@ theorem asm_refines_merged_partial {tb tb' : List (Nat × BTR)} {manual : List M
         FRun f (Ψ x) z → ∃ y, RRun tb manual x y ∧ Ψ y = z) :=
   assemble_refines_merged hc hg h' hG hM
 
-/-- the instance the driver checks: `tb' = normalize tb` -/
-theorem asm_refines_normalized {tb : List (Nat × BTR)} {manual : List ManualEdge} {fnAddr : Nat} {f : Function}
-    (hc : Coherent (normalize tb) manual) (hg : GraphsWF (normalize tb))
-    (h' : assemble (normalize tb) manual fnAddr = .ok f) (hM : mergedOfB tb (normalize tb) manual = true) :
+/-- the instance the driver checks: a table with the same instruction lists (it takes `canonTable tb manual`) -/
+theorem asm_refines_canon {tb tb' : List (Nat × BTR)} {manual : List ManualEdge} {fnAddr : Nat} {f : Function}
+    (hi : tb'.map (·.2.instrs) = tb.map (·.2.instrs))
+    (hc : Coherent tb' manual) (hg : GraphsWF tb')
+    (h' : assemble tb' manual fnAddr = .ok f) (hM : mergedOfB tb tb' manual = true) :
     ∃ Ψ : RConfig → Config,
       (∀ x, (Ψ x).state = x.state) ∧
       (∀ x y, RValid tb x → (∀ y', RRun tb manual x y' → GuardsTyped tb manual y'.state) →
         RRun tb manual x y → FRun f (Ψ x) (Ψ y)) ∧
       (∀ x z, RValid tb x → (∀ y', RRun tb manual x y' → GuardsTyped tb manual y'.state) →
         FRun f (Ψ x) z → ∃ y, RRun tb manual x y ∧ Ψ y = z) := by
-  obtain ⟨Ψ, h1, _, h3, h4⟩ := assemble_refines_merged hc hg h' (graphAt_normalize tb) (mergedOfB_sound hM)
+  obtain ⟨Ψ, h1, _, h3, h4⟩ := assemble_refines_merged hc hg h' (graphAt_of_instrs hi) (mergedOfB_sound hM)
   exact ⟨Ψ, h1, h3, h4⟩
 
 /-- **translate_function_refines** — the same for the whole of `translate_function_extended` (work list +
@@ -329,9 +331,10 @@ def exDup : List (Nat × BTR) :=
    (0x1004, { addr := 0x1004, length := 4, instrs := [exNop 0x1004], succs := [] })]
 
 example : ¬ Coherent exDup [] := by decide
-example : Coherent (normalize exDup) [] := by decide
-example : mergedOfB exDup (normalize exDup) [] = true := by decide
-example : assemble (normalize exDup) [] 0x1000 = assemble exDup [] 0x1000 := by decide
+example : Coherent (canonTable exDup []) [] := by decide
+example : mergedOfB exDup (canonTable exDup []) [] = true := by decide
+example : (canonTable exDup []).map (·.2.instrs) = exDup.map (·.2.instrs) := by decide
+example : assemble (canonTable exDup []) [] 0x1000 = assemble exDup [] 0x1000 := by decide
 example : (assemble exDup [] 0x1000).map (fun f => f.cfg.edges.map (·.cond)) =
     .ok [some (.bin .or (.scalar ⟨"f", 1, none⟩) (.bin .cmpeq (.scalar ⟨"f", 1, none⟩) (.const ⟨1, 0⟩)))] := by decide
 
